@@ -29,7 +29,10 @@
 //!
 //! Output lines are canonical outcomes only (never ciphertext, never poll counts).
 //! Monitors (implementation-only): `C15:stuck` (nobody runnable, not finished), `C15:spin` (poll budget
-//! exceeded), `C15:data-mismatch`, `C15:error` (unexpected io error), `C15:close`.
+//! exceeded), `C15:data-mismatch`, `C15:error` (unexpected io error), `C15:close`. A stuck run in which the TLS
+//! layer left a transport flush `Pending` with accepted bytes that never reached the peer is reported under
+//! the finding signatures `F150:close-notify-stranded` (native-tls back-end, close) and
+//! `F151:handshake-flush-dropped` (rustls back-end, handshake).
 
 use std::{
     cell::RefCell,
@@ -276,6 +279,55 @@ impl compio_io::AsyncWrite for CWrite {
     async fn shutdown(&mut self) -> io::Result<()> {
         let core = self.0.clone();
         std::future::poll_fn(|cx| core.borrow_mut().poll_close(cx)).await
+    }
+}
+
+/// What the TLS layer did to its transport, seen from outside the transport: bytes the transport accepted
+/// from it, and whether its latest `poll_flush` was left `Pending` (never retried to `Ready`).
+#[derive(Default, Debug)]
+struct TapStats {
+    accepted: u64,
+    flush_calls: u64,
+    last_flush_pending: bool,
+    close_calls: u64,
+}
+
+struct Tap<T> {
+    inner: T,
+    st: Rc<RefCell<TapStats>>,
+}
+
+impl<T: AsyncRead + Unpin> AsyncRead for Tap<T> {
+    fn poll_read(mut self: Pin<&mut Self>, cx: &mut Context<'_>, buf: &mut [u8]) -> Poll<io::Result<usize>> {
+        Pin::new(&mut self.inner).poll_read(cx, buf)
+    }
+}
+
+impl<T: AsyncWrite + Unpin> AsyncWrite for Tap<T> {
+    fn poll_write(mut self: Pin<&mut Self>, cx: &mut Context<'_>, buf: &[u8]) -> Poll<io::Result<usize>> {
+        let r = Pin::new(&mut self.inner).poll_write(cx, buf);
+        if let Poll::Ready(Ok(n)) = &r {
+            self.st.borrow_mut().accepted += *n as u64;
+        }
+        r
+    }
+
+    fn poll_flush(mut self: Pin<&mut Self>, cx: &mut Context<'_>) -> Poll<io::Result<()>> {
+        let r = Pin::new(&mut self.inner).poll_flush(cx);
+        let mut st = self.st.borrow_mut();
+        st.flush_calls += 1;
+        st.last_flush_pending = r.is_pending();
+        r
+    }
+
+    fn poll_close(mut self: Pin<&mut Self>, cx: &mut Context<'_>) -> Poll<io::Result<()>> {
+        let r = Pin::new(&mut self.inner).poll_close(cx);
+        let mut st = self.st.borrow_mut();
+        st.close_calls += 1;
+        if r.is_ready() {
+            st.last_flush_pending = false;
+        }
+        r
     }
 }
 
@@ -607,9 +659,10 @@ fn exec_tls(m: &Material, case: &Case, ex: &mut Exec) {
     let ssteps: Vec<Step> = c.steps.iter().map(|s| s.2.clone()).collect();
     let (a, b, stats, pipes, dones) = mk_cores(&c.sched);
     let budget = budget_for(&c);
+    let taps: [Rc<RefCell<TapStats>>; 2] = Default::default();
     let rep = match c.tr.as_str() {
         "direct" => {
-            let (ta, tb) = (Direct(a), Direct(b));
+            let (ta, tb) = (Tap { inner: Direct(a), st: taps[0].clone() }, Tap { inner: Direct(b), st: taps[1].clone() });
             let t1: Pin<Box<dyn Future<Output = ()>>> =
                 Box::pin(endpoint(async { conn.connect("localhost", ta).await }, csteps, rc.clone(), dones[0].clone()));
             let t2: Pin<Box<dyn Future<Output = ()>>> = Box::pin(endpoint(async { acc.accept(tb).await }, ssteps, rs.clone(), dones[1].clone()));
@@ -620,7 +673,7 @@ fn exec_tls(m: &Material, case: &Case, ex: &mut Exec) {
                 let core = Rc::new(RefCell::new(core));
                 Box::pin(AsyncStream::new((CRead(core.clone()), CWrite(core))))
             };
-            let (ta, tb) = (mk(a), mk(b));
+            let (ta, tb) = (Tap { inner: mk(a), st: taps[0].clone() }, Tap { inner: mk(b), st: taps[1].clone() });
             let t1: Pin<Box<dyn Future<Output = ()>>> =
                 Box::pin(endpoint(async { conn.connect("localhost", ta).await }, csteps, rc.clone(), dones[0].clone()));
             let t2: Pin<Box<dyn Future<Output = ()>>> = Box::pin(endpoint(async { acc.accept(tb).await }, ssteps, rs.clone(), dones[1].clone()));
@@ -637,7 +690,7 @@ fn exec_tls(m: &Material, case: &Case, ex: &mut Exec) {
     };
     let detail = |what: &str| {
         format!(
-            "{what} end={endword} case=[{}] client={:?} server={:?} polls={:?} calls={}/{} moved c2s={} s2c={} unflushed-blocked-reads={}/{}",
+            "{what} end={endword} case=[{}] client={:?} server={:?} polls={:?} calls={}/{} moved c2s={} s2c={} unflushed-blocked-reads={}/{} taps={:?}/{:?}",
             case.lines.join(" | "),
             rc,
             rs,
@@ -648,6 +701,8 @@ fn exec_tls(m: &Material, case: &Case, ex: &mut Exec) {
             pipes[1].borrow().moved,
             stats[0].borrow().blocked_read_unflushed,
             stats[1].borrow().blocked_read_unflushed,
+            taps[0].borrow(),
+            taps[1].borrow(),
         )
     };
     // one output line per case line
@@ -681,10 +736,19 @@ fn exec_tls(m: &Material, case: &Case, ex: &mut Exec) {
             (StepRes::NotReached, StepRes::NotReached) if first_bad.is_some() => format!("{word} skip"),
             _ => {
                 if first_bad.is_none() {
-                    match rep.end {
-                        RunEnd::Spin => ex.fail("C15:spin", detail(&format!("step {i}"))),
-                        _ => ex.fail("C15:stuck", detail(&format!("step {i}"))),
-                    }
+                    // bytes the TLS layer handed to its transport that never reached the peer, behind a flush the
+                    // TLS layer left Pending: the layer abandoned a flush (implementation-only diagnosis)
+                    let stranded = |e: usize| {
+                        let t = taps[e].borrow();
+                        t.last_flush_pending && t.accepted > pipes[e].borrow().moved
+                    };
+                    let sig = match rep.end {
+                        RunEnd::Spin => "C15:spin",
+                        _ if i == 0 && c.be == "rustls" && (stranded(0) || stranded(1)) => "F151:handshake-flush-dropped",
+                        _ if word == "close" && c.be == "ossl" && (stranded(0) || stranded(1)) => "F150:close-notify-stranded",
+                        _ => "C15:stuck",
+                    };
+                    ex.fail(sig, detail(&format!("step {i}")));
                 }
                 if rep.end == RunEnd::Spin { format!("{word} spin") } else { format!("{word} stuck") }
             }
@@ -724,11 +788,16 @@ fn gen_tls(r: &mut Rng, thorough: bool) -> Vec<String> {
     let lim = *r.pick(&[1usize, 7, 4096, 4096, 1 << 20]);
     let buf = if tr == "direct" { r.below(2) } else { 1 };
     let (dfh, df) = if tr == "direct" { (gen_delay(r), gen_delay(r)) } else { (0, 0) };
-    let mut lines = vec![format!(
-        "tls be={be} tr={tr} lim={lim} buf={buf} dr={} dw={} dfh={dfh} df={df}",
-        gen_delay(r),
-        gen_delay(r)
-    )];
+    let dr = gen_delay(r);
+    let mut dw = gen_delay(r);
+    if be == "rustls" && tr == "direct" && buf == 1 && dfh > 0 {
+        // futures-rustls drops a Pending handshake flush (F151). When the writes of a flight pend as well, the
+        // flush is called once per write round and whether the *last* call is the one that gets performed
+        // depends on the byte length of the real ClientHello - not a property of the shim, not predictable by an
+        // abstract engine: keep the writes undelayed in this corner.
+        dw = 0;
+    }
+    let mut lines = vec![format!("tls be={be} tr={tr} lim={lim} buf={buf} dr={dr} dw={dw} dfh={dfh} df={df}")];
     let maxlen: u64 = match (lim, thorough) {
         (1, false) => 2_000,
         (1, true) => 40_000,
